@@ -157,7 +157,7 @@ impl Number {
                 return Err("Division by zero".to_string());
             }
             Ok(self.powi(exp))
-        } else if num == one {
+        } else if num == one && den < BigInt::from(1i64 << 31) {
             let exp: Option<i64> = den.as_int();
             self.root(exp.unwrap() as i32)
         } else if !self.dimless() {
